@@ -1927,6 +1927,7 @@ Section FINAL.
                   exists s, List.In s (d_samples db) /\ window_ok h s = true /\ sm_fp s = fp) /\
       (forall o, List.In o out ->
          (exists s, List.In s (d_series db) /\ t_fp s = o_fp o /\ prom_matches re_full ms (t_labels s) = true /\
+                    o_labels o = sort_labels (sort_labels (t_labels s)) /\
                     (forall kv, List.In kv (o_labels o) <-> List.In kv (t_labels s))) /\
          o_samples o = rows_of (o_fp o) rows /\
          StronglySorted Z.le (map fst (o_samples o))).
@@ -1986,7 +1987,7 @@ Section FINAL.
       apply andb_prop in Hok. destruct Hok as [_ Hpm].
       exists s. split; [assumption|]. split; [assumption|]. split.
       + rewrite (fp_functional _ _ _ Hdb s sm Hs Hsm) by congruence. exact Hpm.
-      + intros kv. rewrite Hl. unfold sort_labels. rewrite !isort_in. tauto.
+      + split; [exact Hl|]. intros kv. rewrite Hl. unfold sort_labels. rewrite !isort_in. tauto.
   Qed.
 End FINAL.
 
@@ -2339,3 +2340,35 @@ Qed.
 Theorem run_selects_independent answer st1 st2 pre1 pre2 c :
   last (run_selects answer st1 (pre1 ++ [c])) [] = last (run_selects answer st2 (pre2 ++ [c])) [].
 Proof. rewrite !run_selects_map, !map_app. cbn [map]. now rewrite !last_last. Qed.
+
+(* ====================================================================================== *)
+(* N. processHints: the two SQL expressions under the interpreter = the list readings      *)
+(* ====================================================================================== *)
+Section HINTEXPR.
+  Variable re_match : string -> string -> bool.
+  Variable cte : select -> option (list N).
+  Definition ts_env (name : string) (ts : Z) : env := fun n => if String.eqb n name then Some (VI ts) else None.
+
+  (* the bucket column of processHints, under the interpreter = bucket_of of the list reading bucket_series *)
+  Lemma ev_bucket_expr h ts : h_step h <> 0%Z ->
+    ev re_match cte (ts_env "spls.timestamp_ms" ts) (bucket_expr h) = Some (VI (bucket_of (h_start h) (h_step h) ts)).
+  Proof.
+    intros Hs. unfold bucket_expr, bucket_of. cbn.
+    destruct (Z.eqb_spec (h_step h) 0) as [E|_]; [contradiction|]. reflexivity.
+  Qed.
+
+  (* the modulo condition of processHints, under the interpreter = range_keep of the list reading range_filter *)
+  Lemma ev_range_cond h ts v :
+    ev re_match cte (ts_env "timestamp_ms" ts)
+       (Or [Eq (ms_in_step "timestamp_ms" (h_step h)) (IntV 0);
+            Ge (ms_in_step "timestamp_ms" (h_step h)) (IntV (h_step h - h_range h))]) =
+    Some (b2v (range_keep (h_step h) (h_range h) (ts, v))).
+  Proof.
+    unfold range_keep, ms_in_step, Or, Eq, Ge. cbn.
+    destruct (Z.rem ts (h_step h) =? 0)%Z; cbn.
+    - destruct (Z.rem ts (h_step h) <? h_step h - h_range h)%Z; reflexivity.
+    - destruct (Z.ltb_spec (Z.rem ts (h_step h)) (h_step h - h_range h)) as [H|H]; cbn.
+      + replace (h_step h - h_range h <=? Z.rem ts (h_step h))%Z with false by (symmetry; apply Z.leb_gt; exact H). reflexivity.
+      + replace (h_step h - h_range h <=? Z.rem ts (h_step h))%Z with true by (symmetry; apply Z.leb_le; exact H). reflexivity.
+  Qed.
+End HINTEXPR.
